@@ -285,7 +285,8 @@ def _key(s):
 def _members(t):
     ms = []
     for p in t["ps"]:
-        doc = "/** documented */ " if p["ty"]["t"] == "deco" and p["ty"]["d"] == "jsdoc" else ""
+        # a documented member starts on its own line (a doc comment after `;` on the same line is not attached to the member)
+        doc = "\n/** documented " + p["key"].replace("*/", "") + " */\n" if p["ty"]["t"] == "deco" and p["ty"]["d"] == "jsdoc" else ""
         ms.append(f"{doc}{_key(p['key'])}{'?' if p['opt'] else ''}: {ts(p['ty'])};")
     for ix in t["ix"]:
         ms.append(f"[key: {ts(ix['kt'])}]: {ts(ix['vt'])};")
